@@ -396,6 +396,12 @@ func (e astEngine) Run(raw json.RawMessage) (interface{}, error) {
 	if err := r.b.valid(); err != nil {
 		return map[string]interface{}{"invalid_world": err.Error()}, nil
 	}
+	// on every third world the listing accessors of every entity have already been called when the
+	// observation starts: a module may have asked anything before (a listing must not rearrange
+	// what it lists from)
+	if e.section != "c07" && (len(w.Files)+len(w.Targets))%3 == 1 {
+		preAccess(r)
+	}
 	switch e.section {
 	case "c01":
 		return observeNav(r), nil
